@@ -8,3 +8,10 @@ PART = {
         "assumptions": ["rounds are in the past of the real clock (the HTTP handler uses time.Now)"],
     },
 }
+
+PART["C14"] = {
+    "runs": [{"name": "httphandler-child", "pkg": PKG["http"], "run": "^TestVF_C14_HTTPWaiters$", "timeout": "20m", "timeout_thorough": "60m"}],
+    "rule": "HTTP clause: the real DrandHandler in a child process; 250 rounds, per round 24 requests parked for latest+1 of which 20 disconnect 8-21 ms later (around the arrival of the round), 3 (quick) / 12 (thorough) children; "
+            "the child must finish (no panic / fatal error / abnormal exit). distinct = distinct child seed",
+    "assumptions": ["a crash is only attributable because the handler runs in its own process"],
+}
